@@ -220,6 +220,9 @@ func c02ContentCases(thorough bool) []string {
 		}
 		q := quote(r)
 		out = append(out, `"`+q+`"`, `$."`+q+`"`, `$"`+q+`"`, `$ starts with "`+q+`"`, `$.datetime("`+q+`")`, `$."a`+q+`b".c`, `$ ? (@."`+q+`" == "`+q+`")`)
+		// the same rune written as an escape: the parser must accept what String() then prints for it
+		esc := `\u{` + hexw(int(r), 1) + `}`
+		out = append(out, `"`+esc+`"`, `$."`+esc+`"`, `$"`+esc+`"`, `$ like_regex "`+esc+`" flag "q"`)
 		// as a regex pattern only where it compiles
 		out = append(out, `$ like_regex "`+q+`"`, `$ like_regex "`+q+`" flag "q"`)
 	}
